@@ -60,6 +60,7 @@ func (c rpCmd) body() string {
 		return fmt.Sprintf("echo %s; echo %s >&2", c.marker, c.marker)
 	}
 }
+
 // source: the command as written in the spokfile (shape i refers to the variable MK with blanks inside the delimiters)
 func (c rpCmd) source() string {
 	if c.shape == 'i' {
@@ -136,6 +137,7 @@ type rpStats struct {
 	SkippedSeen    int            `json:"task_results_skipped"`
 	TracedCommands int            `json:"task_executions_seen_in_trace"`
 	ToFiles        int            `json:"invocations_with_stdout_and_stderr_in_regular_files"`
+	WithDotenv     int            `json:"cases_with_a_dotenv_file_next_to_the_spokfile"`
 	Samples        []string       `json:"samples"`
 	OracleFail     map[string]int `json:"oracle_failures"`
 }
@@ -303,6 +305,10 @@ func reportCmd(args []string) error {
 		}
 		os.WriteFile(filepath.Join(proj, "spokfile"), []byte(src.String()), 0o644)
 		os.WriteFile(filepath.Join(proj, "f0.txt"), []byte("0"), 0o644)
+		if k%3 == 1 { // a .env file next to the spokfile: it feeds the commands' environment and nothing else
+			os.WriteFile(filepath.Join(proj, ".env"), []byte("UNRELATED_SETTING=1\n"), 0o644)
+			st.WithDotenv++
+		}
 		byName := map[int]rpTask{}
 		for _, t := range ts {
 			byName[t.name] = t
